@@ -76,6 +76,8 @@ def run(res: C.Result):
         cases[-1]["designated"] = "plain-composite-with-two-exchange-moves"
         cases.append(progs.gen_program(rng, 5 + 7 * k, ensembles=("gc",), fixed_exchange_particle=True))
         cases[-1]["designated"] = "fixed-exchangeable-atom-deleted"
+    for k in range(6 if quick else 60):
+        cases.append(progs.framework_program(rng, k))      # molecules interleaved with frozen framework atoms
     for k in range(8 if quick else 100):
         cases.append(progs.relocate_program(rng, k))      # delete-then-insert in one trial: undone correctly by the shipped code
     outs = C.run_impl_parallel("c03.py", [{"cases": cases[i::16]} for i in range(16)], timeout=3000)
